@@ -409,6 +409,47 @@ def run_chain(ei, order):
     return all(v is c1 for v in got.values()), obs
 
 
+# ---- sub-family: shapes of names and of objects on the path ---------------------------------------------------------
+SHAPE_INT = "Model: nodes+=Node edges+=Edge; Node: 'node' name=INT; Edge: 'edge' target=[Node:INT|%s];"
+SHAPE_FALSY = ("Model: (structs+=Struct | insts+=Inst | refs+=Ref)*; Struct: 'struct' name=ID '{' vals*=Val '}'; Val: 'val' name=ID; "
+               "Inst: 'inst' name=ID ':' type=[Struct]; Ref: 'ref' t=[Val:FQN|%s]; FQN: ID('.'ID)*;")
+SHAPES = [("int-names", e) for e in ("nodes", "^nodes", "+p:nodes", "parent(Model).nodes")] + [("falsy-on-path", e) for e in ("insts.~type.vals", "+p:insts.~type.vals", "insts.~type.~vals.name" if False else "structs.vals")]
+
+
+def run_shape(kind, expr):
+    from textx import metamodel_from_str
+
+    obs = {"family": kind, "rrel": expr}
+    try:
+        if kind == "int-names":
+            # the name of the target is no text: a single name part
+            m = metamodel_from_str(SHAPE_INT % expr).model_from_str("node 1 node 2 edge 2 edge 1")
+            got = [getattr(e.target, "name", None) for e in m.edges]
+            obs["observed"] = got
+            return got == [2, 1], obs
+        # a single-valued reference on the path holds an object of a user class that is falsy (len() == 0)
+        Struct = type("Struct", (), {"__init__": lambda self, **kw: self.__dict__.update(kw), "__len__": lambda self: 0})
+        m = metamodel_from_str(SHAPE_FALSY % expr, classes=[Struct]).model_from_str("struct A { val x } struct B { val y } inst a : A inst b : B ref %s" % ("A.x" if expr == "structs.vals" else "a.x"))
+        t = m.refs[0].t
+        obs["observed"] = getattr(t, "name", None)
+        return obs["observed"] == "x" and t.parent is m.structs[0], obs
+    except Exception as e:
+        obs["observed"] = "%s: %s" % (type(e).__name__, str(e)[:120])
+        return False, obs
+
+
+def work_shapes(arg):
+    u = Unit()
+    for kind, expr in arg:
+        with watchdog(20):
+            ok, obs = run_shape(kind, expr)
+        u.case(["shape", kind, expr], nontrivial=True, sample=obs)
+        u.count("shape family:" + kind)
+        if not ok:
+            u.fail(["shape", kind, expr], {"shape": [kind, expr]}, sig="shape " + kind, what=str(obs)[:400])
+    return u
+
+
 def work_chain(arg):
     u = Unit()
     for ei, order in arg:
@@ -473,6 +514,7 @@ def run(ctx):
     ctx.pmap(work_load, [lc[i:i + 10] for i in range(0, len(lc), 10)])
     ch = [(ei, order) for ei in range(len(CHAIN_EXPRS)) for order in itertools.permutations(range(5))]
     ctx.pmap(work_chain, [ch[i:i + 40] for i in range(0, len(ch), 40)])
+    ctx.pmap(work_shapes, [SHAPES])
     _, models = world()
     return {
         "rule": "case = (RREL expression, model, start object, dotted name, target type); expressions = %s; plus grammar references resolved while "
@@ -489,6 +531,8 @@ def replay(p):
 
     if "load" in p:
         return run_load(*p["load"])
+    if "shape" in p:
+        return run_shape(*p["shape"])
     if "chain" in p:
         return run_chain(p["chain"][0], tuple(p["chain"][1]))
 
